@@ -9,7 +9,7 @@ REGISTRY = {
         "tests": [
             {"name": "TestC01Encode", "shards": 8, "shards_thorough": 16},
         ],
-        "require": {"c01": 4000, "ctor:bin-byte": 285, "ctor:bin-int": 284, "ctor:bin-slice": 792, "ctor:bin-string": 271, "ctor:bool-scalar": 420, "ctor:bool-slice": 781, "ctor:float-f4-unrounded": 183, "ctor:float-scalar-float32": 152, "ctor:float-scalar-float64": 199, "ctor:float-scalar-int": 44, "ctor:float-scalar-int64": 47, "ctor:float-scalar-string": 193, "ctor:float-scalar-uint": 39, "ctor:float-slice-float32": 289, "ctor:float-slice-float64": 386, "ctor:float-slice-string": 327, "ctor:int-scalar-int": 285, "ctor:int-scalar-int16": 258, "ctor:int-scalar-int32": 275, "ctor:int-scalar-int64": 303, "ctor:int-scalar-int8": 212, "ctor:int-scalar-string": 283, "ctor:int-scalar-uint": 185, "ctor:int-scalar-uint16": 114, "ctor:int-scalar-uint32": 131, "ctor:int-scalar-uint64": 164, "ctor:int-scalar-uint8": 89, "ctor:int-slice-int": 402, "ctor:int-slice-int16": 416, "ctor:int-slice-int32": 388, "ctor:int-slice-int64": 444, "ctor:int-slice-int8": 360, "ctor:int-slice-string": 389, "ctor:int-slice-uint": 243, "ctor:int-slice-uint16": 191, "ctor:int-slice-uint32": 178, "ctor:int-slice-uint64": 190, "ctor:int-slice-uint8": 178, "ctor:list-nil-across-256": 45, "ctor:list-nil-skipped": 732, "ctor:uint-scalar-int": 235, "ctor:uint-scalar-int16": 171, "ctor:uint-scalar-int32": 179, "ctor:uint-scalar-int64": 212, "ctor:uint-scalar-int8": 143, "ctor:uint-scalar-string": 250, "ctor:uint-scalar-uint": 254, "ctor:uint-scalar-uint16": 250, "ctor:uint-scalar-uint32": 254, "ctor:uint-scalar-uint64": 271, "ctor:uint-scalar-uint8": 223, "ctor:uint-slice-int": 317, "ctor:uint-slice-int16": 221, "ctor:uint-slice-int32": 230, "ctor:uint-slice-int64": 264, "ctor:uint-slice-int8": 184, "ctor:uint-slice-string": 319, "ctor:uint-slice-uint": 334, "ctor:uint-slice-uint16": 381, "ctor:uint-slice-uint32": 360, "ctor:uint-slice-uint64": 402, "ctor:uint-slice-uint8": 344, "depth:0": 2506, "depth:1-2": 984, "depth:3-8": 395, "depth:64": 5, "depth:9-62": 64, "fc:ascii:0": 414, "fc:ascii:1": 243, "fc:ascii:2": 160, "fc:ascii:>2": 232, "fc:binary:0": 617, "fc:binary:1": 343, "fc:binary:2": 234, "fc:binary:>2": 362, "fc:boolean:0": 588, "fc:boolean:1": 355, "fc:boolean:2": 204, "fc:boolean:>2": 333, "fc:f4:0": 269, "fc:f4:1": 154, "fc:f4:2": 92, "fc:f4:>2": 126, "fc:f8:0": 272, "fc:f8:1": 154, "fc:f8:2": 91, "fc:f8:>2": 134, "fc:i1:0": 326, "fc:i1:1": 191, "fc:i1:2": 108, "fc:i1:>2": 158, "fc:i2:0": 318, "fc:i2:1": 193, "fc:i2:2": 110, "fc:i2:>2": 149, "fc:i4:0": 273, "fc:i4:1": 159, "fc:i4:2": 94, "fc:i4:>2": 130, "fc:i8:0": 313, "fc:i8:1": 187, "fc:i8:2": 113, "fc:i8:>2": 154, "fc:jis8:0": 435, "fc:jis8:1": 246, "fc:jis8:2": 154, "fc:jis8:>2": 235, "fc:list:0": 531, "fc:list:1": 578, "fc:list:2": 579, "fc:list:>2": 1058, "fc:localized_str:2": 336, "fc:localized_str:>2": 390, "fc:u1:0": 266, "fc:u1:1": 158, "fc:u1:2": 95, "fc:u1:>2": 129, "fc:u2:0": 268, "fc:u2:1": 155, "fc:u2:2": 93, "fc:u2:>2": 127, "fc:u4:0": 382, "fc:u4:1": 227, "fc:u4:2": 136, "fc:u4:>2": 196, "fc:u8:0": 271, "fc:u8:1": 163, "fc:u8:2": 94, "fc:u8:>2": 129, "lenbytes:1": 3809, "lenbytes:2": 536, "lenbytes:3": 95, "slab:22-85": 54, "slab:6-21": 177, "slab:86-213": 54, "slab:>213": 69},
+        "require": {"c01": 4000, "ctor:bin-byte": 285, "ctor:bin-int": 283, "ctor:bin-slice": 792, "ctor:bin-string": 271, "ctor:bool-scalar": 419, "ctor:bool-slice": 781, "ctor:float-f4-unrounded": 183, "ctor:float-scalar-float32": 152, "ctor:float-scalar-float64": 199, "ctor:float-scalar-int": 44, "ctor:float-scalar-int64": 47, "ctor:float-scalar-string": 193, "ctor:float-scalar-uint": 39, "ctor:float-slice-float32": 289, "ctor:float-slice-float64": 386, "ctor:float-slice-string": 327, "ctor:int-scalar-int": 284, "ctor:int-scalar-int16": 256, "ctor:int-scalar-int32": 275, "ctor:int-scalar-int64": 300, "ctor:int-scalar-int8": 211, "ctor:int-scalar-string": 282, "ctor:int-scalar-uint": 185, "ctor:int-scalar-uint16": 114, "ctor:int-scalar-uint32": 130, "ctor:int-scalar-uint64": 164, "ctor:int-scalar-uint8": 89, "ctor:int-slice-int": 402, "ctor:int-slice-int16": 414, "ctor:int-slice-int32": 388, "ctor:int-slice-int64": 444, "ctor:int-slice-int8": 360, "ctor:int-slice-string": 389, "ctor:int-slice-uint": 243, "ctor:int-slice-uint16": 190, "ctor:int-slice-uint32": 178, "ctor:int-slice-uint64": 190, "ctor:int-slice-uint8": 178, "ctor:list-nil-across-256": 45, "ctor:list-nil-skipped": 732, "ctor:uint-scalar-int": 235, "ctor:uint-scalar-int16": 171, "ctor:uint-scalar-int32": 179, "ctor:uint-scalar-int64": 212, "ctor:uint-scalar-int8": 143, "ctor:uint-scalar-string": 249, "ctor:uint-scalar-uint": 254, "ctor:uint-scalar-uint16": 250, "ctor:uint-scalar-uint32": 254, "ctor:uint-scalar-uint64": 271, "ctor:uint-scalar-uint8": 223, "ctor:uint-slice-int": 317, "ctor:uint-slice-int16": 221, "ctor:uint-slice-int32": 230, "ctor:uint-slice-int64": 264, "ctor:uint-slice-int8": 184, "ctor:uint-slice-string": 319, "ctor:uint-slice-uint": 334, "ctor:uint-slice-uint16": 381, "ctor:uint-slice-uint32": 360, "ctor:uint-slice-uint64": 402, "ctor:uint-slice-uint8": 344, "depth:0": 2506, "depth:1-2": 984, "depth:3-8": 395, "depth:64": 5, "depth:9-62": 64, "fc:ascii:0": 414, "fc:ascii:1": 243, "fc:ascii:2": 160, "fc:ascii:>2": 232, "fc:binary:0": 617, "fc:binary:1": 343, "fc:binary:2": 234, "fc:binary:>2": 362, "fc:boolean:0": 588, "fc:boolean:1": 355, "fc:boolean:2": 204, "fc:boolean:>2": 333, "fc:f4:0": 269, "fc:f4:1": 154, "fc:f4:2": 92, "fc:f4:>2": 126, "fc:f8:0": 272, "fc:f8:1": 154, "fc:f8:2": 91, "fc:f8:>2": 134, "fc:i1:0": 326, "fc:i1:1": 191, "fc:i1:2": 108, "fc:i1:>2": 158, "fc:i2:0": 318, "fc:i2:1": 193, "fc:i2:2": 110, "fc:i2:>2": 149, "fc:i4:0": 273, "fc:i4:1": 159, "fc:i4:2": 94, "fc:i4:>2": 130, "fc:i8:0": 313, "fc:i8:1": 187, "fc:i8:2": 113, "fc:i8:>2": 154, "fc:jis8:0": 435, "fc:jis8:1": 246, "fc:jis8:2": 154, "fc:jis8:>2": 235, "fc:list:0": 531, "fc:list:1": 578, "fc:list:2": 579, "fc:list:>2": 1058, "fc:localized_str:2": 336, "fc:localized_str:>2": 390, "fc:u1:0": 266, "fc:u1:1": 158, "fc:u1:2": 95, "fc:u1:>2": 129, "fc:u2:0": 268, "fc:u2:1": 155, "fc:u2:2": 93, "fc:u2:>2": 127, "fc:u4:0": 382, "fc:u4:1": 227, "fc:u4:2": 136, "fc:u4:>2": 196, "fc:u8:0": 271, "fc:u8:1": 163, "fc:u8:2": 94, "fc:u8:>2": 129, "lenbytes:1": 3809, "lenbytes:2": 536, "lenbytes:3": 95, "slab:22-85": 54, "slab:6-21": 177, "slab:86-213": 54, "slab:>213": 69},
     },
     "C02": {
         "level": "exploration",
@@ -35,7 +35,7 @@ REGISTRY = {
             {"name": "TestC03Concurrent", "shards": 4, "shards_thorough": 16, "race": True, "crash_is_violation": True},
             {"name": "TestC03SizeCap", "shards": 1, "crash_is_violation": True},
         ],
-        "require": {"c03:concurrent:goroutines>=4:false": 119, "c03:concurrent:goroutines>=4:true": 180, "c03:control:0": 210, "c03:control:1": 219, "c03:control:2": 141, "c03:control:3": 133, "c03:control:4": 111, "c03:control:5": 102, "c03:control:6": 111, "c03:control:7": 104, "c03:control:8": 93, "c03:control:9": 122, "c03:data": 2159, "c03:rejected": 2422, "c03:restamps:1": 600, "c03:restamps:2": 574, "c03:restamps:3": 464, "c03:restamps:4": 512, "c03:wire-entry:Forward/built": 510, "c03:wire-entry:Forward/decoded": 185, "c03:wire-entry:Forward/decoded-restamped": 187, "c03:wire-entry:Forward/restamped": 198, "c03:wire-entry:ForwardAsync/built": 491, "c03:wire-entry:ForwardAsync/decoded": 187, "c03:wire-entry:ForwardAsync/decoded-restamped": 187, "c03:wire-entry:ForwardAsync/restamped": 197, "c03:wire-entry:Reply": 776, "c03:wire-entry:Send": 770, "c03:wire-entry:SendAsync": 798, "c03:wire-entry:SendSECS2": 665, "c03:wire:Forward": 1061, "c03:wire:ForwardAsync": 1063, "c03:wire:Reply": 776, "c03:wire:Send": 770, "c03:wire:SendAsync": 798, "c03:wire:SendSECS2": 665, "c03:wire:active": 2566, "c03:wire:passive": 2588},
+        "require": {"c03:concurrent:goroutines>=4:false": 119, "c03:concurrent:goroutines>=4:true": 179, "c03:control:0": 210, "c03:control:1": 219, "c03:control:2": 141, "c03:control:3": 133, "c03:control:4": 111, "c03:control:5": 102, "c03:control:6": 111, "c03:control:7": 104, "c03:control:8": 93, "c03:control:9": 122, "c03:data": 2159, "c03:rejected": 2422, "c03:restamps:1": 600, "c03:restamps:2": 574, "c03:restamps:3": 464, "c03:restamps:4": 512, "c03:undecodable": 800, "c03:wire-entry:Forward/built": 510, "c03:wire-entry:Forward/decoded": 185, "c03:wire-entry:Forward/decoded-restamped": 187, "c03:wire-entry:Forward/restamped": 195, "c03:wire-entry:ForwardAsync/built": 489, "c03:wire-entry:ForwardAsync/decoded": 187, "c03:wire-entry:ForwardAsync/decoded-restamped": 184, "c03:wire-entry:ForwardAsync/restamped": 197, "c03:wire-entry:Reply": 773, "c03:wire-entry:Send": 770, "c03:wire-entry:SendAsync": 798, "c03:wire-entry:SendSECS2": 665, "c03:wire:Forward": 1061, "c03:wire:ForwardAsync": 1060, "c03:wire:Reply": 773, "c03:wire:Send": 770, "c03:wire:SendAsync": 798, "c03:wire:SendSECS2": 665, "c03:wire:active": 2566, "c03:wire:fanout": 803, "c03:wire:passive": 2588},
     },
     "C04": {
         "level": "exploration",
@@ -61,7 +61,7 @@ REGISTRY = {
             {"name": "TestC06Coincidences", "shards": 8, "shards_thorough": 16, "crash_is_violation": True},
             {"name": "TestC06QueueFullT3", "shards": 4, "shards_thorough": 16, "crash_is_violation": True},
         ],
-        "require": {"c06:drop:early": 113, "c06:drop:mid": 115, "c06:drop:none": 564, "c06:outcome:closed": 71, "c06:outcome:ctx": 156, "c06:outcome:reject": 237, "c06:outcome:reply": 746, "c06:outcome:t3": 132, "c06:policy:abort": 164, "c06:policy:collide-control": 330, "c06:policy:collide-primary": 165, "c06:policy:dup": 249, "c06:policy:dup-late": 197, "c06:policy:late": 188, "c06:policy:none": 193, "c06:policy:reject": 195, "c06:policy:reply": 577, "c06:policy:unsolicited": 157, "c06:slow-write": 150, "c06c:role:active": 794, "c06c:role:passive": 805},
+        "require": {"c06:drop:early": 107, "c06:drop:mid": 115, "c06:drop:none": 564, "c06:outcome:closed": 71, "c06:outcome:ctx": 156, "c06:outcome:reject": 230, "c06:outcome:reply": 745, "c06:outcome:t3": 129, "c06:policy:abort": 160, "c06:policy:collide-control": 330, "c06:policy:collide-primary": 165, "c06:policy:dup": 234, "c06:policy:dup-late": 183, "c06:policy:late": 187, "c06:policy:none": 187, "c06:policy:reject": 188, "c06:policy:reply": 567, "c06:policy:unsolicited": 154, "c06:slow-write": 150, "c06:sysbytes-near-wrap": 210, "c06c:role:active": 794, "c06c:role:passive": 805, "c06q:role:equipment": 220, "c06q:role:host": 79},
     },
     "C07": {
         "level": "exploration",
@@ -85,7 +85,7 @@ REGISTRY = {
             {"name": "TestC05KnownF6", "shards": 1},
             {"name": "TestC05Scripts", "shards": 8, "shards_thorough": 16},
         ],
-        "require": {"c05b:coalesced": 192, "c05b:connect-racing-close": 121, "c05b:deselect": 508, "c05b:dwell-expired": 49, "c05b:role:active": 400, "c05b:role:passive": 398, "close": 2940, "coalesced": 1061, "generation-after-close": 2209, "in-window-commit": 2569, "late-commit": 2385, "multi-generation": 1240, "stale-event": 2872},
+        "require": {"c05b:coalesced": 141, "c05b:connect-racing-close": 121, "c05b:deselect": 508, "c05b:dwell-expired": 49, "c05b:role:active": 400, "c05b:role:passive": 398, "close": 2940, "coalesced": 1061, "generation-after-close": 2209, "in-window-commit": 2569, "late-commit": 2385, "multi-generation": 1240, "stale-event": 2872},
     },
     "C08": {
         "level": "exploration",
@@ -95,7 +95,7 @@ REGISTRY = {
         "tests": [
             {"name": "TestC08Responder", "shards": 8, "shards_thorough": 16},
         ],
-        "require": {"c08:data-delivered": 1088, "c08:data-not-selected": 1593, "c08:data-session-mismatch": 568, "c08:deselect-not-selected": 1681, "c08:deselect-selected": 1794, "c08:late-response-after-timeout": 273, "c08:linktest": 1332, "c08:orphan-reject-ignored": 1091, "c08:orphan-response": 1762, "c08:own-select-accepted": 642, "c08:own-select-already-active": 192, "c08:own-select-refused": 97, "c08:own-select-rejected": 330, "c08:reject-control-with-body": 1707, "c08:reject-ptype": 2050, "c08:reject-stype": 1818, "c08:responses-cut-by-disconnect": 459, "c08:role:active": 1983, "c08:role:passive": 1999, "c08:second-connection": 966, "c08:select-duplicate": 2022, "c08:select-first": 3075, "c08:separate-ignored": 741, "c08:separate-selected": 936},
+        "require": {"c08:data-delivered": 1088, "c08:data-not-selected": 1593, "c08:data-session-mismatch": 568, "c08:deselect-not-selected": 1681, "c08:deselect-selected": 1794, "c08:late-response-after-timeout": 273, "c08:linktest": 1332, "c08:orphan-reject-ignored": 1091, "c08:orphan-response": 1762, "c08:own-select-accepted": 642, "c08:own-select-already-active": 192, "c08:own-select-refused": 97, "c08:own-select-rejected": 330, "c08:pipelined-behind-the-end": 476, "c08:reject-control-with-body": 1707, "c08:reject-ptype": 2050, "c08:reject-stype": 1818, "c08:responses-cut-by-disconnect": 459, "c08:role:active": 1983, "c08:role:passive": 1999, "c08:second-connection": 966, "c08:select-duplicate": 2022, "c08:select-first": 3075, "c08:separate-ignored": 741, "c08:separate-selected": 936},
     },
     "C09": {
         "level": "fault_enumeration",
@@ -110,7 +110,7 @@ REGISTRY = {
             {"name": "TestC09Generations", "shards": 8, "shards_thorough": 16},
             {"name": "TestC09Secs1", "shards": 4, "shards_thorough": 16, "crash_is_violation": True},
         ],
-        "require": {"c09:fault:close": 825, "c09:fault:cut-mid-frame": 296, "c09:fault:linktest-dead": 301, "c09:fault:peer-close": 630, "c09:fault:peer-reset": 616, "c09:fault:reply-then-close": 798, "c09:fault:separate": 264, "c09:fault:stall-queue-reset": 300, "c09:fault:t8-stall": 300, "c09:fault:write-timeout": 366, "c09:gens:1": 811, "c09:gens:2": 813, "c09:gens:3": 753, "c09:pending-at-fault": 3189, "c09:role:active": 1187, "c09:role:passive": 1201, "c09:stale-replies-played": 850, "c09s1:gens:1": 272, "c09s1:gens:2": 268, "c09s1:gens:3": 245, "c09s1:role:equipment": 393, "c09s1:role:host": 404},
+        "require": {"c09:fault:close": 825, "c09:fault:cut-mid-frame": 296, "c09:fault:linktest-dead": 300, "c09:fault:peer-close": 630, "c09:fault:peer-reset": 616, "c09:fault:reply-then-close": 798, "c09:fault:separate": 264, "c09:fault:stall-queue-reset": 300, "c09:fault:t8-stall": 300, "c09:fault:write-timeout": 366, "c09:gens:1": 811, "c09:gens:2": 813, "c09:gens:3": 753, "c09:pending-at-fault": 3189, "c09:role:active": 1187, "c09:role:passive": 1201, "c09:stale-replies-played": 850, "c09h:end:peer-close": 42, "c09r:offset:-1ms": 850, "c09r:offset:0s": 3121, "c09r:offset:1ms": 829, "c09r:role:active": 2388, "c09r:role:passive": 2412, "c09s1:gens:1": 272, "c09s1:gens:2": 268, "c09s1:gens:3": 245, "c09s1:role:equipment": 393, "c09s1:role:host": 404},
     },
     "C10": {
         "level": "exploration",
@@ -124,7 +124,7 @@ REGISTRY = {
             {"name": "TestC10StuckPeer", "shards": 4, "shards_thorough": 16, "crash_is_violation": True},
             {"name": "TestC10Secs1Fresh", "shards": 4, "shards_thorough": 16, "crash_is_violation": True},
         ],
-        "require": {"c10:reopened": 45, "c10b:selected": 59, "c10b:wt:5s": 43},
+        "require": {"c09r:offset:-1ms": 850, "c09r:offset:0s": 3121, "c09r:offset:1ms": 829, "c09r:role:active": 2388, "c09r:role:passive": 2412, "c10:reopened": 45, "c10b:selected": 59, "c10b:wt:5s": 43, "c10c:role:equipment": 148, "c10c:role:host": 151},
     },
     "C11": {
         "level": "fault_enumeration",
@@ -137,7 +137,7 @@ REGISTRY = {
             {"name": "TestC11Recovery", "shards": 8, "shards_thorough": 16},
             {"name": "TestC11CutEnumeration", "shards": 1},
         ],
-        "require": {"backoff": 20000, "backoff:flat": 3897, "backoff:nonfinite": 4308, "backoff:reaches-T5": 3656, "c11:cold-start": 217, "c11:cut-beyond-exchange": 100, "c11:enumerated": 40, "c11:fault:cut-in": 220, "c11:fault:cut-out": 149, "c11:fault:linktest": 64, "c11:fault:peer-close": 59, "c11:fault:t7": 37, "c11:fault:t8": 59, "c11:fault:write-timeout": 63, "c11:redundant-open": 283, "c11:refusals:0": 271, "c11:refusals:1": 102, "c11:refusals:2": 103, "c11:refusals:3": 253, "c11:role:active": 371, "c11:role:passive": 366},
+        "require": {"backoff": 20000, "backoff:flat": 3897, "backoff:nonfinite": 4308, "backoff:reaches-T5": 3656, "c11:cold-start": 217, "c11:cut-beyond-exchange": 100, "c11:enumerated": 40, "c11:fault:cut-in": 220, "c11:fault:cut-out": 149, "c11:fault:linktest": 64, "c11:fault:peer-close": 59, "c11:fault:t7": 37, "c11:fault:t8": 59, "c11:fault:write-timeout": 63, "c11:redundant-open": 283, "c11:refusals:0": 271, "c11:refusals:1": 102, "c11:refusals:2": 103, "c11:refusals:3": 253, "c11:role:active": 371, "c11:role:passive": 366, "c11:t5-changed-at-runtime": 90, "c11:then-dead": 52, "c11s:cold-start": 136, "c11s:fault:no-ack": 108, "c11s:fault:peer-close-after-enq": 114, "c11s:fault:peer-close-idle": 140, "c11s:fault:peer-reset-idle": 133, "c11s:fault:retry-exhausted": 103, "c11s:refusals:0": 247, "c11s:refusals:1": 90, "c11s:refusals:2": 93, "c11s:refusals:3": 168, "c11s:role:active": 298, "c11s:role:passive": 301},
     },
     "C17": {
         "level": "exploration",
@@ -150,7 +150,7 @@ REGISTRY = {
             {"name": "TestC17Assembler", "shards": 4, "shards_thorough": 16},
             {"name": "TestC17Line", "shards": 8, "shards_thorough": 16},
         ],
-        "require": {"c17:blocks:1": 2086, "c17:blocks:2": 590, "c17:blocks:3": 481, "c17:blocks:4": 824, "c17:parse:extend": 699, "c17:parse:flip": 928, "c17:parse:length": 715, "c17:parse:none": 931, "c17:parse:truncate": 695, "c17a:block-0": 546, "c17a:block-0+just-past-T4": 75, "c17a:block-0-lone": 544, "c17a:block-0-lone+just-past-T4": 65, "c17a:changed-header": 995, "c17a:changed-header+just-past-T4": 144, "c17a:duplicate": 898, "c17a:duplicate+just-past-T4": 122, "c17a:new-message": 879, "c17a:new-message+just-past-T4": 121, "c17a:next": 3768, "c17a:next+just-past-T4": 1851, "c17a:next-after-T4": 1061, "c17a:skipped-number": 658, "c17a:skipped-number+just-past-T4": 85, "c17a:wrong-device": 987, "c17a:wrong-device+just-past-T4": 140, "c17a:wrong-direction": 982, "c17a:wrong-direction+just-past-T4": 144, "c17l:duplex": 188, "c17l:duplex:inbound-blocks:2": 66, "c17l:duplex:inbound-blocks:3": 62, "c17l:duplex:inbound-blocks:4": 59, "c17l:in:bad-checksum": 157, "c17l:in:bad-length": 148, "c17l:in:block-0": 87, "c17l:in:block-0-lone": 85, "c17l:in:changed-header": 167, "c17l:in:duplicate": 156, "c17l:in:new-message": 151, "c17l:in:next": 3455, "c17l:in:next-after-T4": 165, "c17l:in:skipped-number": 112, "c17l:in:wrong-device": 177, "c17l:in:wrong-direction": 161, "c17l:inbound": 508, "c17l:out:blocks:1": 506, "c17l:out:blocks:2": 146, "c17l:out:blocks:3": 121, "c17l:out:blocks:4": 198, "c17l:out:forward": 502, "c17l:out:nak-retry": 341, "c17l:out:send": 470, "c17l:outbound": 503, "c17l:role:equipment": 594, "c17l:role:host": 604},
+        "require": {"c10c:role:equipment": 148, "c10c:role:host": 151, "c17:blocks:1": 2086, "c17:blocks:2": 590, "c17:blocks:3": 481, "c17:blocks:4": 824, "c17:parse:extend": 699, "c17:parse:flip": 928, "c17:parse:length": 715, "c17:parse:none": 931, "c17:parse:truncate": 695, "c17a:block-0": 546, "c17a:block-0+just-past-T4": 75, "c17a:block-0-lone": 544, "c17a:block-0-lone+just-past-T4": 65, "c17a:changed-header": 995, "c17a:changed-header+just-past-T4": 144, "c17a:duplicate": 898, "c17a:duplicate+just-past-T4": 122, "c17a:new-message": 879, "c17a:new-message+just-past-T4": 121, "c17a:next": 3768, "c17a:next+just-past-T4": 1851, "c17a:next-after-T4": 1061, "c17a:skipped-number": 658, "c17a:skipped-number+just-past-T4": 85, "c17a:wrong-device": 987, "c17a:wrong-device+just-past-T4": 140, "c17a:wrong-direction": 982, "c17a:wrong-direction+just-past-T4": 144, "c17l:duplex": 188, "c17l:duplex:inbound-blocks:2": 66, "c17l:duplex:inbound-blocks:3": 62, "c17l:duplex:inbound-blocks:4": 59, "c17l:in:bad-checksum": 149, "c17l:in:bad-length": 77, "c17l:in:block-0": 87, "c17l:in:block-0-lone": 81, "c17l:in:changed-header": 167, "c17l:in:duplicate": 155, "c17l:in:new-message": 151, "c17l:in:next": 3413, "c17l:in:next-after-T4": 165, "c17l:in:short-length-with-ghost": 83, "c17l:in:skipped-number": 112, "c17l:in:wrong-device": 177, "c17l:in:wrong-direction": 161, "c17l:inbound": 508, "c17l:out:blocks:1": 506, "c17l:out:blocks:2": 146, "c17l:out:blocks:3": 121, "c17l:out:blocks:4": 198, "c17l:out:forward": 502, "c17l:out:nak-retry": 341, "c17l:out:send": 470, "c17l:outbound": 503, "c17l:role:equipment": 594, "c17l:role:host": 604, "c17l:t4-changed-at-runtime": 171},
     },
     "C18": {
         "level": "fault_enumeration",
@@ -173,7 +173,7 @@ REGISTRY = {
             {"name": "TestC19Linktest", "shards": 8, "shards_thorough": 16},
             {"name": "TestC19AfterFailedSends", "shards": 4, "shards_thorough": 16},
         ],
-        "require": {"c19b:answers": 39, "c19b:role:active": 147, "c19b:role:passive": 148, "c19b:silent": 50, "c19b:suppress:false": 150, "c19b:suppress:true": 147, "c19b:threshold:1": 74, "c19b:threshold:2": 80, "c19b:threshold:3": 66, "c19b:threshold:4": 71, "c19c:role:active": 78, "c19c:role:passive": 82, "c19c:suppression:false": 40, "c19c:suppression:true": 119, "credited": 7295, "restart": 8242, "suppress:false": 9975, "suppress:true": 10012, "threshold:1": 4121, "threshold:2": 4118, "threshold:3": 3028, "threshold:4": 3008, "threshold:5": 2537, "threshold:6": 3059},
+        "require": {"c19b:answers": 38, "c19b:role:active": 147, "c19b:role:passive": 148, "c19b:silent": 47, "c19b:suppress:false": 150, "c19b:suppress:true": 147, "c19b:threshold:1": 74, "c19b:threshold:2": 80, "c19b:threshold:3": 66, "c19b:threshold:4": 71, "c19c:role:active": 78, "c19c:role:passive": 82, "c19c:suppression:false": 40, "c19c:suppression:true": 119, "credited": 7295, "restart": 8242, "suppress:false": 9975, "suppress:true": 10012, "threshold:1": 4121, "threshold:2": 4118, "threshold:3": 3028, "threshold:4": 3008, "threshold:5": 2537, "threshold:6": 3059},
     },
     "C20": {
         "level": "exploration",
@@ -184,7 +184,7 @@ REGISTRY = {
             {"name": "TestC20Metrics", "shards": 8, "shards_thorough": 16},
             {"name": "TestC20Secs1", "shards": 4, "shards_thorough": 16, "crash_is_violation": True},
         ],
-        "require": {"c20:cold-open": 399, "c20:outcome:cancel": 620, "c20:outcome:disconnect": 465, "c20:outcome:ok": 1249, "c20:outcome:refused": 1022, "c20:outcome:reject": 680, "c20:outcome:t3": 949, "c20:outcome:write-error": 411, "c20:role:active": 794, "c20:role:passive": 803},
+        "require": {"c20:cold-open": 399, "c20:outcome:cancel": 620, "c20:outcome:disconnect": 462, "c20:outcome:ok": 1249, "c20:outcome:refused": 1022, "c20:outcome:reject": 680, "c20:outcome:t3": 949, "c20:outcome:write-error": 398, "c20:role:active": 794, "c20:role:passive": 803, "c20s:outcome:close": 181, "c20s:outcome:drop": 161, "c20s:outcome:inbound": 159, "c20s:outcome:ok": 350, "c20s:outcome:refused": 161, "c20s:outcome:reply": 199, "c20s:outcome:t3": 200, "c20s:outcome:transmission-failed": 163, "c20s:role:active": 202, "c20s:role:passive": 197},
     },
     "C12": {
         "level": "exploration",
@@ -195,7 +195,7 @@ REGISTRY = {
             {"name": "TestC12Delivered", "shards": 4, "shards_thorough": 16, "crash_is_violation": True},
             {"name": "TestC12Immutable", "shards": 8, "shards_thorough": 16, "race": True, "crash_is_violation": True, "timeout_thorough": 7200},
         ],
-        "require": {"c12:constructed": 217, "c12:counted:false": 154, "c12:counted:true": 155, "c12:decoded": 97},
+        "require": {"c12:constructed": 217, "c12:counted:false": 154, "c12:counted:true": 155, "c12:decoded": 97, "c12d:hsms-ss": 197, "c12d:secs1": 202},
     },
     "C13": {
         "level": "exploration",
@@ -214,7 +214,7 @@ REGISTRY = {
         "trust": "The differential is between the library's two renderers (that agreement IS the property); read-back trusts harness/ref/e5 values.",
         "technique": 'property-based testing (rapid): differential between renderers + parse read-back',
         "tests": [{"name": "TestC15Renderers", "shards": 8, "shards_thorough": 16}],
-        "require": {"c15": 4000, "empty-child": 348, "extreme-numeric": 590, "history:root-then-subs": 190, "history:shared-object": 355, "history:subs-first": 160, "readback": 2602, "top:ascii": 193, "top:binary": 340, "top:boolean": 342, "top:f4": 106, "top:f8": 110, "top:i1": 142, "top:i2": 130, "top:i4": 113, "top:i8": 131, "top:jis8": 194, "top:list": 1480, "top:localized_str": 141, "top:u1": 112, "top:u2": 110, "top:u4": 183, "top:u8": 107},
+        "require": {"c15": 4000, "empty-child": 348, "extreme-numeric": 590, "history:other-renderers-first": 1080, "history:root-then-subs": 190, "history:shared-object": 352, "history:subs-first": 155, "readback": 2602, "top:ascii": 193, "top:binary": 340, "top:boolean": 342, "top:f4": 106, "top:f8": 110, "top:i1": 142, "top:i2": 130, "top:i4": 113, "top:i8": 131, "top:jis8": 194, "top:list": 1480, "top:localized_str": 141, "top:u1": 112, "top:u2": 110, "top:u4": 183, "top:u8": 107},
     },
     "C16": {
         "level": "exploration",
@@ -225,7 +225,7 @@ REGISTRY = {
             {"name": "TestC16Constructors", "shards": 4, "shards_thorough": 16},
             {"name": "TestC16Wire", "shards": 4, "shards_thorough": 16, "crash_is_violation": True},
         ],
-        "require": {"c16:binary": 762, "c16:boolean": 955, "c16:clamped": 799, "c16:float": 1513, "c16:int": 2824, "c16:refused": 4344, "c16:uint": 1866, "c16:value": 2823, "c16w:Forward": 184, "c16w:ReplyDataMessage": 171, "c16w:SendDataMessage/W": 319, "c16w:SendDataMessage/noW": 326, "c16w:SendDataMessageAsync": 236, "c16w:SendSECS2Message": 222, "c16w:handler-reply": 178, "c16w:handler-send": 230},
+        "require": {"c16:binary": 762, "c16:boolean": 955, "c16:clamped": 799, "c16:float": 1513, "c16:int": 2824, "c16:refused": 4344, "c16:uint": 1866, "c16:value": 2819, "c16w:Forward": 184, "c16w:ReplyDataMessage": 171, "c16w:SendDataMessage/W": 319, "c16w:SendDataMessage/noW": 326, "c16w:SendDataMessageAsync": 236, "c16w:SendSECS2Message": 222, "c16w:handler-reply": 178, "c16w:handler-send": 230},
     },
     "C14": {
         "level": "exploration",
